@@ -847,6 +847,9 @@ Proof.
   cbn [rp_spec]. rewrite vadd_length, IH, vscale_length, (mat_pow_apply_length n) by assumption. lia.
 Qed.
 
+Lemma vred_eq v : vred v =v v.
+Proof. unfold vred. induction v as [|a v IH]; cbn; constructor; [apply Qred_correct | exact IH]. Qed.
+
 (** The loop computes (I + alpha M + ... + (alpha M)^K) g for any operator that acts as the dense M. *)
 Lemma rp_loop_invariant n M op alpha g : wf_mat n n M -> length g = n ->
   (forall x, length x = n -> op x =v mat_vec M x) ->
@@ -858,9 +861,9 @@ Proof.
   - cbn [rp_loop]. replace (t + S K)%nat with (S t + K)%nat by lia.
     assert (Hfl : length f = n).
     { rewrite (veq_length _ _ Hf), vscale_length. apply (mat_pow_apply_length n); assumption. }
-    assert (Hf' : vscale alpha (op f) =v vscale (qpow alpha (S t)) (mat_pow_apply M (S t) g)).
-    { rewrite (Hop f Hfl), Hf, mat_vec_vscale, vscale_vscale. cbn [qpow mat_pow_apply]. reflexivity. }
-    apply IH; [exact Hf'|]. cbn [rp_spec]. rewrite He, Hf'. reflexivity.
+    assert (Hf' : vred (vscale alpha (op f)) =v vscale (qpow alpha (S t)) (mat_pow_apply M (S t) g)).
+    { rewrite vred_eq, (Hop f Hfl), Hf, mat_vec_vscale, vscale_vscale. cbn [qpow mat_pow_apply]. reflexivity. }
+    apply IH; [exact Hf'|]. cbn [rp_spec]. rewrite vred_eq, He, Hf'. reflexivity.
 Qed.
 
 Theorem rp_loop_closed_form n M op alpha K g : wf_mat n n M -> length g = n ->
@@ -1078,10 +1081,10 @@ Proof.
     vm_compute in H3. discriminate.
 Qed.
 
-(** PCA(normalized=True): fit returns the left singular vectors untouched. *)
-Lemma pca_normalized_refuted :
+(** LEGACY code (before fix 11827c95). PCA(normalized=True): fit returned the left singular vectors untouched. *)
+Lemma legacy_pca_normalized_refuted :
   exists (sU : mat) (sS : vec) (sV : mat) (i : nat),
-    let '(emb_row, _, _) := pca_fit true sU sS sV in
+    let '(emb_row, _, _) := pca_fit_legacy true sU sS sV in
     ~ Forall (fun x => x == 0) (nth i emb_row []) /\ ~ sqnorm (nth i emb_row []) == 1.
 Proof.
   exists [[3 # 5]; [4 # 5]], [1], [[1]], 0%nat. cbn. split.
@@ -1089,6 +1092,38 @@ Proof.
   - intros H. vm_compute in H. discriminate.
 Qed.
 
-(** PCA.predict after PCA.fit (weights_col_ is None) fails for every adjacency vector. *)
-Lemma pca_predict_refuted x : pca_predict_row None x = inr TypeError.
+(** LEGACY code: PCA.predict after PCA.fit (weights_col_ was None) failed for every adjacency vector. *)
+Lemma legacy_pca_predict_refuted x : pca_predict_row_legacy None x = inr TypeError.
 Proof. reflexivity. Qed.
+
+(* ------------------------------------------------------------------------------------------- *)
+(** * PCA.predict (repaired code) reproduces the fitted rows *)
+Theorem pca_predict_reproduces_fit_full (norm_o : Q -> Q) (normalized : bool) (nrow ncol : nat) (A : mat)
+        (sU : mat) (sS : vec) (sV : mat) (i : nat) :
+  wf_mat nrow ncol A -> wf_mat nrow (length sS) sU -> length sV = ncol -> (i < nrow)%nat ->
+  Proper (Qeq ==> Qeq) norm_o ->
+  (forall k, (k < length sS)%nat ->
+     slr_matvec (pca_operator nrow ncol A) (col k sV) =v vscale (nthq sS k) (col k sU) /\ ~ nthq sS k == 0) ->
+  let '(emb_row, emb_col, sv) := pca_fit norm_o normalized sU sS sV in
+  pca_predict_row norm_o normalized (pca_mean_col nrow ncol A) sv sV (nth i A []) =v nth i emb_row [].
+Proof.
+  intros HA HU HV Hi HP Hsolver. unfold pca_fit.
+  pose proof HA as [HL HF]. pose proof HU as [HUL HUF].
+  pose proof (pca_y_means nrow ncol A HL) as HY. fold (pca_mean_col nrow ncol A) in HY.
+  pose proof (col_means_length nrow ncol A) as HM.
+  assert (Hcore : pca_predict_row norm_o false (pca_mean_col nrow ncol A) sS sV (nth i A []) =v nth i sU []).
+  { unfold pca_predict_row. apply veq_nth.
+    - rewrite map_length, seq_length, (wf_mat_row nrow (length sS) sU i HU Hi). reflexivity.
+    - intros k Hk. rewrite map_length, seq_length in Hk. rewrite nthq_seq_map by exact Hk.
+      destruct (Hsolver k Hk) as [Hop Hnz].
+      pose proof (veq_nthq _ _ i Hop) as E. rewrite (veq_nthq _ _ i (pca_centering nrow ncol A (col k sV) HA)) in E.
+      rewrite nthq_mat_vec in E by (unfold centered; rewrite map_length; lia).
+      unfold centered in E. rewrite (nth_map_gen (fun r => vsub r (col_means nrow ncol A)) A [] []) in E by lia.
+      rewrite dot_vsub_l in E by (rewrite (wf_mat_row nrow ncol A i HA Hi), HM; reflexivity).
+      rewrite nthq_vscale in E by (rewrite col_length; lia). rewrite nthq_col in E by lia.
+      rewrite !qdot_dot, HY, E. unfold mget. field. exact Hnz. }
+  destruct normalized.
+  - unfold pca_predict_row in *. unfold normalize2. rewrite (nth_map_gen (normalize_row2 norm_o) sU [] []) by lia.
+    apply (normalize_row2_proper norm_o HP). exact Hcore.
+  - exact Hcore.
+Qed.
